@@ -143,6 +143,8 @@ type Hist struct {
 	cfgFor  string
 	outcome uint64
 	failed  bool
+	seqStore [4]lz.Seq
+	litStore [16]byte
 	// InNilParse tells a Panic oracle that the panicking call was Parse(nil, ...).
 	InNilParse bool
 	inLib      bool // a call into the library under test is in progress (panics elsewhere are harness bugs)
@@ -382,8 +384,8 @@ func runParserHist(h *Hist, orc *Oracle) {
 	// the block is reused by all Parse calls of one execution (so that stale
 	// block contents are observable) but must not carry anything over from the
 	// previous execution, or replay would not be deterministic
-	h.Blk.Sequences = h.Blk.Sequences[:0]
-	h.Blk.Literals = h.Blk.Literals[:0]
+	h.Blk.Sequences = h.seqStore[:0:len(h.seqStore)] // always the same spare capacity: replay meets the same block
+	h.Blk.Literals = h.litStore[:0:len(h.litStore)]
 	blk := &h.Blk
 	depth := int64(0)
 
@@ -434,6 +436,16 @@ func runParserHist(h *Hist, orc *Oracle) {
 			h.inLib, h.InNilParse = false, false
 			ev.Blk = nil
 		} else {
+			// the caller's block may hold anything from its earlier use (Aux is the caller's to write): poison what the
+			// slices have in store, Parse must overwrite what it returns
+			full := blk.Sequences[:cap(blk.Sequences)]
+			for i := range full {
+				full[i] = lz.Seq{LitLen: 0xA5A5A5A5, MatchLen: 0x5A5A5A5A, Offset: 0xA5A5A5A5, Aux: 0xA5A5A5A5}
+			}
+			lits := blk.Literals[:cap(blk.Literals)]
+			for i := range lits {
+				lits[i] = 0xA5
+			}
 			h.inLib = true
 			n, err = p.Parse(blk, flags)
 			h.inLib = false
